@@ -34,3 +34,35 @@ def showAccount (a : Account) : String :=
   s!"funder={a.funder} start={a.start} end={a.endT} orig={showAmt a.original} lockup={showPeriods a.lockup} vesting={showPeriods a.vesting} df={showAmt a.delegatedFree} dv={showAmt a.delegatedVesting}"
 
 end Haqq.Driver
+
+namespace Haqq.Driver
+open Haqq.Sched Haqq.Vest
+
+/-- account on the wire: "none" | "plain" | funder|start|end|orig|lockup|vesting|df|dv (8 fields joined by '|') -/
+inductive WAcct | none | plain | vest (a : Account)
+
+def parseWAcct (s : String) : Option WAcct :=
+  if s == "none" then some .none else if s == "plain" then some .plain else
+  match s.splitOn "|" with
+  | [f, st, e, o, l, v, df, dv] => do
+    let f ← f.toNat?; let st ← st.toInt?; let e ← e.toInt?; let o ← parseAmt o
+    let l ← parsePeriods l; let v ← parsePeriods v; let df ← parseAmt df; let dv ← parseAmt dv
+    pure (.vest { funder := f, start := st, endT := e, original := o, lockup := l, vesting := v,
+                  delegatedFree := df, delegatedVesting := dv })
+  | _ => Option.none
+
+def showWAcct (a : Account) : String :=
+  s!"{a.funder}|{a.start}|{a.endT}|{showAmt a.original}|{showPeriods a.lockup}|{showPeriods a.vesting}|{showAmt a.delegatedFree}|{showAmt a.delegatedVesting}"
+
+/-- the schedule defaults and the equal-totals test shared by MsgCreateClawbackVestingAccount and
+    MsgConvertIntoVestingAccount: (lockup, vesting, coins) or none ("lockup and vesting amounts must be equal") -/
+def msgSchedules (lockup vesting : List Period) : Option (List Period × List Period × Amt) :=
+  let vc := totalAmount vesting
+  let lc := totalAmount lockup
+  let lockup' := if !Amt.isZero wireM vc && lockup.isEmpty then [(⟨0, vc⟩ : Period)] else lockup
+  let lc' := if !Amt.isZero wireM vc && lockup.isEmpty then vc else lc
+  let vesting' := if !Amt.isZero wireM lc' && vesting.isEmpty then [(⟨0, lc'⟩ : Period)] else vesting
+  let vc' := if !Amt.isZero wireM lc' && vesting.isEmpty then lc' else vc
+  if amtEq wireM vc' lc' then some (lockup', vesting', vc') else Option.none
+
+end Haqq.Driver
